@@ -6,9 +6,13 @@
    before/ret/after/log are serialised with ONE address labeller, so equal labels mean equal
    addresses across them; the model runs on the [before] values.  Maps (map[T]struct{}) travel as
    key slices [(sl maplabel (keys) ())], a nil map as [nils].  Fresh allocations have label 0 in
-   the model; the capacity of a fresh slice is not compared. *)
+   the model; the capacity of a fresh slice is not compared.
+
+   Lists that hold a NaN (hardening round 4): outside the NaN-free value model and the theorems' guard;
+   Contains, Unique, Union and Intersect on them are judged against the textbook specification with
+   [Sets.NaN.eq_nan] (IEEE ==: a NaN is Equal to nothing), see [eval_nan_op]. *)
 From Coq Require Import String.
-From Verif Require Import Base Sexp Go.Ty Go.Val Go.Equal Go.Hash Eval03 Sets.Model Sets.ListSpec.
+From Verif Require Import Base Sexp Go.Ty Go.Val Go.Equal Go.Hash Eval03 Sets.Model Sets.ListSpec Sets.NaN.
 Open Scope string_scope.
 
 (* ---------- structural identity of values (labels, bits, spare capacity included) ---------- *)
@@ -391,6 +395,69 @@ Definition eval_op (op : string) (t : ty) (raw : list sexp) (o : option obs) : v
         end
   end.
 
+(* ---------- lists that hold a NaN: specification only ---------- *)
+Definition nan_any (t : ty) (vs : list val) : bool :=
+  existsb (fun v => nan_in [] (TSl t) v || nan_in [] t v)%bool vs.
+Definition is_nan_op (op : string) : bool :=
+  (String.eqb op "contains" || String.eqb op "unique" || String.eqb op "union" || String.eqb op "intersect")%bool.
+(* every element of a occurs (bit for bit, same addresses) in b *)
+Definition all_in (a b : list val) : bool := forallb (fun x => existsb (val_eqb x) b) a.
+
+Definition eval_nan_op (op : string) (t : ty) (ob : obs) : verdict :=
+  let ts := TSl t in
+  let eqn := eq_nan t in
+  let sv (sok guard : bool) (want : sexp) (tag : string) := mkv true sok sok guard want ("nan/" ++ tag) in
+  if String.eqb op "contains" then
+    match o_before ob, o_ret ob, o_after ob with
+    | [lst; item], [rb], [lst'; item'] =>
+        match slice_elems lst, get_b rb with
+        | Some es, Some b =>
+            let want := mem eqn item es in
+            sv (Bool.eqb b want && val_eqb lst lst' && val_eqb item item')%bool
+               (typed_nan ts lst && typed_nan t item)%bool (of_bool want)
+               ("contains/" ++ bool_tag (nan_in [] t item) "nan-item" "item" ++ "/" ++ bool_tag b "found" "absent")
+        | _, _ => bad_line
+        end
+    | _, _, _ => bad_line
+    end
+  else if String.eqb op "unique" then
+    match o_before ob, map_opt parse_val (o_ret ob) with
+    | [lst], Some [r] =>
+        match slice_elems lst, slice_elems r with
+        | Some es, Some rs =>
+            let K := keep_first eqn [] es in
+            (* pairwise non-Equal, every input element present (a NaN is Equal to nothing, so "covers" is
+               "is there"), only input elements, every occurrence of a NaN element kept; first occurrences
+               in order when the elements are not ==-comparable *)
+            sv (Nat.eqb (List.length (keep_first eqn [] rs)) (List.length rs)
+                && Nat.eqb (List.length rs) (List.length K) && all_in K rs && all_in rs es
+                && (can_equal t || vals_eqb rs K))%bool
+               (typed_nan ts lst) (L (map val_sexp K))
+               ("unique/" ++ (if can_equal t then "map-path" else "hash-path") ++ "/"
+                ++ bool_tag (Nat.eqb (List.length K) (List.length es)) "nodups" "dups")
+        | _, _ => bad_line
+        end
+    | _, _ => bad_line
+    end
+  else
+    match o_before ob, map_opt parse_val (o_ret ob), o_after ob with
+    | [a; b], Some [r], [a'; b'] =>
+        match slice_elems a, slice_elems b, slice_elems r with
+        | Some es1, Some es2, Some rs =>
+            let guard := (typed_nan ts a && typed_nan ts b)%bool in
+            if String.eqb op "union" then
+              let want := (es1 ++ keep_first eqn es1 es2)%list in
+              sv (vals_eqb rs want && val_eqb b b') guard (L (map val_sexp want))
+                 ("union/" ++ bool_tag (Nat.eqb (List.length rs) (List.length es1)) "nothing-new" "grown")
+            else
+              let want := filter (fun v => mem eqn v es2) es1 in
+              sv (vals_eqb rs want && val_eqb a a' && val_eqb b b')%bool guard (L (map val_sexp want))
+                 ("intersect/" ++ bool_tag (is_nil rs) "empty" "nonempty")
+        | _, _, _ => bad_line
+        end
+    | _, _, _ => bad_line
+    end.
+
 Definition sup14 (t : ty) : bool := (eq_sup [] Top t && (can_equal t || hash_sup t))%bool.
 
 Definition eval14 (e : sexp) : verdict :=
@@ -416,7 +483,9 @@ Definition eval14 (e : sexp) : verdict :=
           let raw := removelast rest in
           if is_panic ob then eval_op op t raw None
           else match parse_obs ob with
-               | Some o => eval_op op t raw (Some o)
+               | Some o =>
+                   if (is_nan_op op && nan_any t (o_before o))%bool then eval_nan_op op t o
+                   else eval_op op t raw (Some o)
                | None => bad_line
                end
       | _, _ => bad_line
